@@ -657,6 +657,9 @@ func c20ParseTrace(raw, dir string) (calls []c20Call, total int) {
 				add("rename " + filepath.Base(q))
 			}
 		case "unlink", "unlinkat":
+			if strings.Contains(args, "AT_REMOVEDIR") {
+				continue // os.Remove tries rmdir after a failed unlink: one logical step, and a directory is not a store file
+			}
 			if strings.Contains(args, dir) {
 				q := strings.SplitN(args[strings.Index(args, dir):], "\"", 2)[0]
 				add("unlink " + filepath.Base(q))
